@@ -214,6 +214,29 @@ func buildCatalogue(seed int64, rec *hook.Recorder, want int, withSpec bool) map
 		probe.Class, probe.Ref = class, ref
 		add(probe)
 	}
+	// format-bearing workloads with instances that reach every format check (the panic injection points of C11)
+	fmtInsts := []string{
+		`{"a":"2020-01-01","b":"2020-01-01","c":["2020-01-01","a@b.co","a8098c1a-f86e-11da-bd1a-00112444be1e"],"d":"a@b.co","e":"zz"}`,
+		`{"a":"nope","b":"2020-01-01","c":["x"],"d":"zz","e":"a8098c1a-f86e-11da-bd1a-00112444be1e"}`,
+		`{"e":"zz","c":["2020-01-01","2020-01-02"],"a":"2020-01-01"}`,
+		`{"b":"nope","d":5,"e":"a8098c1a-f86e-11da-bd1a-00112444be1e","a":"2020-01-01"}`,
+	}
+	for i := 0; i < 2*len(fmtInsts); i++ {
+		st, _ := json.Marshal(formatty())
+		how := []string{"oneshot", "recycle"}[i%2]
+		add(schemaCall("os-format", st, []byte(fmtInsts[i%len(fmtInsts)]), how))
+	}
+	// the documented invalid-schema panic, met lazily while validating (unresolvable $ref under a property, items, not)
+	for _, bad := range []string{
+		`{"type":"object","properties":{"a":{"type":"string"},"z":{"$ref":"#/definitions/nowhere"}}}`,
+		`{"type":"object","properties":{"z":{"items":{"$ref":"#/definitions/nowhere"}}}}`,
+		`{"type":"object","properties":{"z":{"not":{"properties":{"q":{"$ref":"#/definitions/nowhere"}}}}}}`,
+		`{"allOf":[{"type":"object"},{"properties":{"z":{"$ref":"#/definitions/nowhere"}}}]}`,
+	} {
+		c := schemaCall("os-badref", []byte(bad), []byte(`{"a":"x","z":[{"q":1}]}`), []string{"oneshot", "recycle"}[len(cat["os-badref"])%2])
+		c.Ref = "PANIC"
+		cat["os-badref"] = append(cat["os-badref"], c)
+	}
 	// composition matrix: every pattern of succeeding / failing branches (length <= 3) under anyOf / oneOf / allOf,
 	// with failing branches of different match counts (selection of the "best" failure), and not
 	okB := []string{`{"type":"integer"}`, `{"minimum":1}`, `{"type":"number","minimum":2}`}
@@ -343,7 +366,9 @@ func runHistory(args []string) error {
 	cat := buildCatalogue(*seed, rec, 6, *withSpec)
 	classes := make([]string, 0, len(cat))
 	for k := range cat {
-		classes = append(classes, k)
+		if k != "os-badref" { // only used as a panicking step
+			classes = append(classes, k)
+		}
 	}
 	sort.Strings(classes)
 	// dry run: number of format checks of the format-bearing calls
@@ -377,6 +402,9 @@ func runHistory(args []string) error {
 				for k := 1; k <= c.NFmt; k++ {
 					panicSteps = append(panicSteps, fmt.Sprintf("panic:os-format#%d:%d", ci, k))
 				}
+			}
+			for ci := range cat["os-badref"] {
+				panicSteps = append(panicSteps, fmt.Sprintf("panic:os-badref#%d:0", ci))
 			}
 			if *n < len(panicSteps) {
 				r.Shuffle(len(panicSteps), func(i, j int) { panicSteps[i], panicSteps[j] = panicSteps[j], panicSteps[i] })
